@@ -153,7 +153,7 @@ func constTerm(v constant.Value, t types.Type) *Term {
 	case constant.Bool:
 		return BoolLit(constant.BoolVal(v))
 	case constant.String:
-		return StrLit(constant.StringVal(v))
+		return GoStr(constant.StringVal(v))
 	case constant.Int:
 		return BigIntLit(v.ExactString())
 	case constant.Float:
@@ -171,7 +171,7 @@ func (env *Env) eval(x *CExpr) cval {
 	case "int":
 		return cval{t: BigIntLit(x.Name), ty: types.Typ[types.Int]}
 	case "str":
-		return cval{t: StrLit(x.Str), ty: types.Typ[types.String]}
+		return cval{t: GoStr(x.Str), ty: types.Typ[types.String]}
 	case "ident":
 		if v, ok := env.resolveName(x.Name); ok {
 			return v
@@ -315,7 +315,7 @@ func (env *Env) evalBin(x *CExpr) cval {
 		case a.isNil:
 			t = isNilTerm(b)
 		default:
-			if a.t.Sort != b.t.Sort {
+			if a.t.Sort != b.t.Sort && a.t.Sort.Base() != b.t.Sort.Base() {
 				cfail("comparison of different sorts: %s (%s) vs %s (%s)", x.Args[0], a.t.Sort, x.Args[1], b.t.Sort)
 			}
 			t = Eq(a.t, b.t)
@@ -366,7 +366,7 @@ func (env *Env) evalBin(x *CExpr) cval {
 }
 
 func isNilTerm(a cval) *Term {
-	switch a.t.Sort {
+	switch a.t.Sort.Base() {
 	case SInt:
 		return Eq(a.t, IntLit(0))
 	case SSlice:
@@ -631,7 +631,7 @@ func (env *Env) evalCall(x *CExpr) cval {
 			cfail("fresh() needs an old state")
 		}
 		var r *Term
-		switch a.t.Sort {
+		switch a.t.Sort.Base() {
 		case SInt:
 			r = a.t
 		case SSlice:
@@ -956,6 +956,47 @@ func (e *Exec) loopEnv(li *loopInfo, phiVals map[ssa.Value]Val, st *State, iters
 			sort.Slice(rs, func(i, j int) bool { return rs[i].Pos() < rs[j].Pos() })
 			return cval{t: its[rs[0]], ghost: "set"}, true
 		}
+		// $i_<ord> / $visited_<ord>: ghosts of an enclosing loop (ordinal with dots written as underscores)
+		if strings.HasPrefix(name, "$i_") || strings.HasPrefix(name, "$visited_") {
+			isIdx := strings.HasPrefix(name, "$i_")
+			ord := strings.ReplaceAll(strings.TrimPrefix(strings.TrimPrefix(name, "$i_"), "$visited_"), "_", ".")
+			for _, other := range e.loops {
+				if other.ord != ord {
+					continue
+				}
+				if isIdx {
+					for _, in := range other.header.Instrs {
+						phi, ok := in.(*ssa.Phi)
+						if !ok {
+							break
+						}
+						if c, ok := phi.Edges[0].(*ssa.Const); ok && c.Value != nil && c.Value.ExactString() == "-1" {
+							var v Val
+							if other == li {
+								v = vals[phi]
+							} else {
+								v = e.vals[phi]
+							}
+							if t, ok := v.(*Term); ok {
+								return cval{t: Add(t, IntLit(1)), ty: types.Typ[types.Int]}, true
+							}
+						}
+					}
+				} else {
+					for rng := range other.iterHdr {
+						if other == li {
+							if t, ok := its[rng]; ok {
+								return cval{t: t, ghost: "set"}, true
+							}
+						}
+						if it := e.iters[rng]; it != nil {
+							return cval{t: it.visited, ghost: "set"}, true
+						}
+					}
+				}
+			}
+			return cval{}, false
+		}
 		// phi with that source name
 		for _, in := range li.header.Instrs {
 			phi, ok := in.(*ssa.Phi)
@@ -1176,7 +1217,69 @@ func (ps *paramState) reads() []string {
 	return out
 }
 
+// specIsRecursive: the spec function can reach itself through spec-function calls.
+func (p *Program) specIsRecursive(sf *SpecFun) bool {
+	if sf.Opaque || sf.Body == nil {
+		return false
+	}
+	seen := map[*SpecFun]bool{}
+	var visit func(x *CExpr, pkg string) bool
+	var reach func(g *SpecFun) bool
+	reach = func(g *SpecFun) bool {
+		if g == sf {
+			return true
+		}
+		if seen[g] || g.Body == nil {
+			return false
+		}
+		seen[g] = true
+		return visit(g.Body, g.Pkg)
+	}
+	visit = func(x *CExpr, pkg string) bool {
+		if x == nil {
+			return false
+		}
+		if x.Kind == "call" {
+			g := p.Specs[pkg+"."+x.Name]
+			if g == nil {
+				g = p.Specs[x.Name]
+			}
+			if g != nil && reach(g) {
+				return true
+			}
+		}
+		for _, a := range x.Args {
+			if visit(a, pkg) {
+				return true
+			}
+		}
+		return false
+	}
+	return visit(sf.Body, sf.Pkg)
+}
+
 func (e *Exec) applySpec(sf *SpecFun, args []cval, env *Env) cval {
+	if !sf.Opaque && !e.P.specIsRecursive(sf) {
+		// non-recursive: expand in place
+		if len(args) != len(sf.Params) {
+			cfail("spec %s: expected %d arguments, got %d", sf.Name, len(sf.Params), len(args))
+		}
+		pkg := e.specPkg(sf)
+		inner := &Env{e: e, st: env.st, old: env.old, pre: env.pre, names: map[string]cval{}, pkg: pkg}
+		for i, p := range sf.Params {
+			a := args[i]
+			ty, srt, ghost := inner.resolveTypeOrGhost(p.Type)
+			if a.isNil {
+				a = cval{t: zeroOfSort(srt), ty: ty, ghost: ghost}
+			}
+			if a.t.Sort != srt && a.t.Sort.Base() != srt.Base() {
+				cfail("spec %s: argument %d has sort %s, expected %s", sf.Name, i, a.t.Sort, srt)
+			}
+			a.ty, a.ghost = ty, ghost
+			inner.names[p.Name] = a
+		}
+		return inner.eval(sf.Body)
+	}
 	d := e.defineSpec(sf)
 	if len(args) != len(d.params) {
 		cfail("spec %s: expected %d arguments, got %d", sf.Name, len(d.params), len(args))
@@ -1193,7 +1296,7 @@ func (e *Exec) applySpec(sf *SpecFun, args []cval, env *Env) cval {
 		if a.isNil {
 			t = zeroOfSort(d.params[i].Sort)
 		}
-		if t.Sort != d.params[i].Sort {
+		if t.Sort != d.params[i].Sort && t.Sort.Base() != d.params[i].Sort.Base() {
 			cfail("spec %s: argument %d has sort %s, expected %s", sf.Name, i, t.Sort, d.params[i].Sort)
 		}
 		ts = append(ts, t)
